@@ -538,7 +538,12 @@ class InterpreterAnalyzer(ASTTemplate):
         operand_id_collision = False
         if self.is_from_regular_aggregation:
             if self.regular_aggregation_dataset is None:
-                raise SemanticError("1-1-6-10")
+                raise SemanticError(
+                    "1-1-6-10",
+                    op=node.op,
+                    operand=getattr(node.operand, "value", None),
+                    dataset_name=None,
+                )
             if node.operand is None:
                 operand = self.regular_aggregation_dataset
             else:
@@ -1114,7 +1119,12 @@ class InterpreterAnalyzer(ASTTemplate):
             if self.aggregation_dataset is not None and self.aggregation_grouping is not None:
                 for id_name in self.aggregation_grouping:
                     if id_name not in self.aggregation_dataset.components:
-                        raise SemanticError("1-1-2-4", op=node.op, id_name=id_name)
+                        raise SemanticError(
+                            "1-1-1-10",
+                            op=node.op,
+                            comp_name=id_name,
+                            dataset_name=self.aggregation_dataset.name,
+                        )
                 if len(self.aggregation_dataset.get_measures()) != 1:
                     raise ValueError("Only one measure is allowed")
                 # Deepcopy is necessary for components to avoid changing the original dataset
